@@ -5,6 +5,7 @@ import (
 	"strings"
 
 	"golang.org/x/net/html"
+	"golang.org/x/net/html/atom"
 )
 
 // C14: attribute binding on one probe element.
@@ -73,7 +74,7 @@ func (a c14Attr) Coq() string {
 }
 
 func c14Probe(out string) (Obs, bool) {
-	ctx := &html.Node{Type: html.ElementNode, Data: "body", DataAtom: 0x0}
+	ctx := &html.Node{Type: html.ElementNode, Data: "body", DataAtom: atom.Body}
 	ctx.DataAtom = 0
 	nodes, err := html.ParseFragment(strings.NewReader("<div>"+out+"</div>"), nil)
 	if err != nil {
